@@ -28,6 +28,7 @@ type instance struct {
 	feed     *feedBuf
 	feedP    *feedBuf
 	patterns []string
+	extra    []int // ids of additional, short-lived watchers (watchx / unwatchx)
 }
 
 var (
